@@ -250,11 +250,13 @@ func (l *sparseFileLoader) loadChunk(i int) error {
 		}
 		defer f.Close()
 
+		verifYield("sp.write", "i", i)
 		if _, err := f.WriteAt(b, int64(l.chunks[i].Start)); err != nil {
 			loadErr = err
 			return
 		}
 
+		verifYield("sp.done", "i", i)
 		l.mu.Lock()
 		l.done.Set(i, true)
 		l.mu.Unlock()
